@@ -41,6 +41,7 @@ def shards(tier, seed):
                         out.append({"id": "d%d-rw%d-l%s-%s" % (detect, rw, {False: 0, True: 1}.get(link, link), f), "detect": detect, "rw": rw, "link": link, "L": L, "first": f})
         out.append({"id": "facade-d%d" % detect, "facade": True, "detect": detect, "L": 4 if tier == "quick" else 6})
     out.append({"id": "iscsi", "iscsi": True})
+    out.append({"id": "two-users", "two_users": True})
     return out
 
 
@@ -162,6 +163,19 @@ def run_sequence(ctx, w, seq, term, detect, rw, link=False, facade=False):
     is_open = True
     fac = None
     if facade:
+        if len(seq) % 2:
+            # a first attach attempt whose probe is answered with CHECK CONDITION: it fails, and leaves the caller's device as
+            # it was (open, usable)
+            w.status, w.sense = 2, SN.build(0x70, 0, 6, 0x29, 0, 18)
+            try:
+                SCSI(dev)
+                fail("failed_probe_not_reported", "SCSI(dev) returned normally although the probe was answered with CHECK CONDITION")
+            except Exception:  # noqa: BLE001
+                pass
+            ctx.count("failed_attach_probes")
+            if len(devnode.open_fds_on(node)) != 1 or dev._file.closed:
+                fail("device_released_by_failed_attach", "after a failed SCSI(dev) the caller's device has %d descriptors on the node (closed=%s)" % (len(devnode.open_fds_on(node)), dev._file.closed))
+                return False
         w.status, w.sense = 0, None
         try:
             fac = SCSI(dev)  # attach: one INQUIRY through the binding
@@ -337,9 +351,91 @@ def run_sequence(ctx, w, seq, term, detect, rw, link=False, facade=False):
     return nontrivial
 
 
+def run_two_users(ctx):
+    """two device objects for the same node, obtained the way applications obtain them (init_device), alive at the same time:
+    every interleaving of their commands and releases; releasing one never takes the other's handle away, and in the end each OS
+    handle was released exactly once"""
+    w = World()  # installs the binding stand-ins: before anything of pyscsi is imported
+    import pyscsi.pyscsi.scsi_enum_command as E
+    from pyscsi.pyscsi.scsi_cdb_testunitready import TestUnitReady
+    from pyscsi.utils import init_device
+
+    from vmon.sim import devnode
+
+    for rw1, rw2 in ((False, False), (True, True), (False, True)):
+        for link in (False, True):
+            for script in itertools.product("12ab", repeat=4):
+                # 1/2: a command through user 1/2; a/b: user 1/2 releases its device (close or with-exit)
+                if "a" not in script and "b" not in script:
+                    continue
+                node = devnode.new_node(link=link)
+                del w.handles[:]
+                w.sg.log = []
+                w.sg.pre_hooks = []
+                w.status, w.sense = 0, None
+                wit = {"two_users_of_one_node": True, "readwrite": [rw1, rw2], "node_is_symlink": link, "script": "".join(script)}
+                bad = []
+                w.sg.pre_hooks.append(lambda ev: bad.append("closed") if ev["file_closed"] else None)
+                try:
+                    users = {"1": init_device(node, rw1), "2": init_device(node, rw2)}
+                except Exception as e:  # noqa: BLE001
+                    ctx.fail("C15:two_users.open_raises.%s" % type(e).__name__, "second init_device on the same node raised %s" % e, wit, exc=e)
+                    devnode.remove_all(node)
+                    continue
+                released = set()
+                for u in users.values():
+                    u.opcodes = E.spc
+                for step, ch in enumerate(script):
+                    who = "1" if ch in "1a" else "2"
+                    if who in released:
+                        continue  # a released device is not used again
+                    dev = users[who]
+                    if ch in "12":
+                        before = len(w.sg.log)
+                        try:
+                            dev.execute(TestUnitReady(E.spc.TEST_UNIT_READY))
+                        except Exception as e:  # noqa: BLE001
+                            ctx.fail("C15:two_users.execute_raises.%s" % type(e).__name__, "user %s, whose device was never released, cannot execute after step %d of %r (the other user released its own device): %s"
+                                     % (who, step, "".join(script), e), wit, exc=e)
+                            break
+                        if len(w.sg.log) - before != 1 or bad:
+                            ctx.fail("C15:two_users.command_through_closed_handle" if bad else "C15:two_users.command_not_sent_once",
+                                     "user %s at step %d of %r: %d commands reached the binding%s" % (who, step, "".join(script), len(w.sg.log) - before, ", through a closed file" if bad else ""), wit)
+                            break
+                    else:
+                        try:
+                            if step % 2:
+                                dev.close()
+                            else:
+                                with dev:
+                                    pass
+                        except Exception as e:  # noqa: BLE001
+                            ctx.fail("C15:two_users.close_raises.%s" % type(e).__name__, "releasing user %s raised %s" % (who, e), wit, exc=e)
+                        released.add(who)
+                for who, dev in users.items():
+                    if who not in released:
+                        try:
+                            dev.close()
+                        except Exception as e:  # noqa: BLE001
+                            ctx.fail("C15:two_users.close_raises.%s" % type(e).__name__, "final release of user %s raised %s" % (who, e), wit, exc=e)
+                users = dev = None
+                left = devnode.open_fds_on(node)
+                if left:
+                    ctx.fail("C15:two_users.descriptor_leak", "%d descriptors on the node after both users released their devices" % len(left), wit)
+                for h in w.handles:
+                    if h.real_closes != 1:
+                        ctx.fail("C15:two_users.handle_closed_%d_times" % h.real_closes, "an OS handle was released %d times" % h.real_closes, wit)
+                        break
+                ctx.case(("two-users", rw1, rw2, link, script), True, sample=wit if ctx.want_sample() else None)
+                ctx.count("two_user_scripts")
+                devnode.remove_all(node)
+
+
 def run(shard, ctx):
     if shard.get("iscsi"):
         return run_iscsi(ctx)
+    if shard.get("two_users"):
+        return run_two_users(ctx)
     w = World()
     if shard.get("facade"):
         for n in range(0, shard["L"] + 1):
@@ -389,14 +485,15 @@ def run_iscsi(ctx):
     st = {"status": 0}
     isc.handler = lambda ev: (st["status"], b"\x70\x00\x06" + bytes(15) if st["status"] == 2 else None)
     for n in range(0, 4):
-        for tup in itertools.product("EF", repeat=n):
+        for tup in itertools.product("EFT", repeat=n):
             for term in ("C", "W", "Y", "S"):
                 isc.contexts[:] = []
                 dev = install.iscsi_device()
                 ctxs = list(isc.contexts)
                 wit = {"sequence": "".join(tup) + term, "transport": "iscsi"}
                 for evn in tup:
-                    st["status"] = 0 if evn == "E" else 2
+                    # T: the binding's pseudo status for a failed / timed-out task
+                    st["status"] = 0 if evn == "E" else 2 if evn == "F" else (0x0F000001, 0x0F000002)[len(tup) % 2]
                     try:
                         dev.execute(TestUnitReady(E.spc.TEST_UNIT_READY))
                     except Exception:  # noqa: BLE001
